@@ -20,6 +20,7 @@ import (
 	"fmt"
 	"io"
 	"math/rand"
+	"os"
 	"net"
 	"net/http"
 	"net/http/httptest"
@@ -85,6 +86,8 @@ type c02Stack struct {
 	store storage.Store
 	smtp  *smtp.Server
 	pop3  *pop3.Server
+	smtpD *smtp.Server // the same servers with -netdebug (config Debug): the traffic dump must not change a stored or served byte
+	pop3D *pop3.Server
 	http  *httptest.Server
 	sid   int64
 }
@@ -116,6 +119,17 @@ func newC02Stack(workdir string) (*c02Stack, error) {
 	if err != nil {
 		return nil, err
 	}
+	dbgS, dbgP := conf.SMTP, conf.POP3
+	dbgS.Debug, dbgP.Debug = true, true
+	st.smtpD = smtp.NewServer(dbgS, manager, addrPolicy, extHost)
+	if st.pop3D, err = pop3.NewServer(dbgP, store); err != nil {
+		return nil, err
+	}
+	quietStdout.Do(func() { // the debug servers dump their traffic with fmt.Printf
+		if f, err := os.OpenFile(os.DevNull, os.O_WRONLY, 0); err == nil {
+			os.Stdout = f
+		}
+	})
 	webui.SetupRoutes(web.Router.PathPrefix("/serve/").Subrouter())
 	rest.SetupRoutes(web.Router.PathPrefix("/api/").Subrouter())
 	web.NewServer(conf, manager, msghub.New(conf.Web.MonitorHistory, extHost))
@@ -158,6 +172,7 @@ type c02Case struct {
 	wire []byte // includes the end-of-data line
 	mb   string
 	tail string // sent right after the wire text: "QUIT\r\n" ("\r\nQUIT\r\n" after a raw wire text that may end inside a line)
+	dbg  bool   // through the servers configured with Debug (-netdebug)
 }
 
 func (st *c02Stack) smtpSend(cs *c02Case) (replies []string, err error) {
@@ -166,16 +181,24 @@ func (st *c02Stack) smtpSend(cs *c02Case) (replies []string, err error) {
 	out.Write(cs.wire)
 	out.WriteString(cs.tail)
 	id := int(atomic.AddInt64(&st.sid, 1))
-	in, err := pipeSession(func(c net.Conn) { st.smtp.VerifC02Session(id, c) }, out.Bytes(), 30*time.Second)
+	srv := st.smtp
+	if cs.dbg {
+		srv = st.smtpD
+	}
+	in, err := pipeSession(func(c net.Conn) { srv.VerifC02Session(id, c) }, out.Bytes(), 30*time.Second)
 	for _, l := range strings.Split(strings.TrimSuffix(string(in), "\r\n"), "\r\n") {
 		replies = append(replies, l)
 	}
 	return replies, err
 }
 
-func (st *c02Stack) pop3Run(cmds string) ([]byte, error) {
+func (st *c02Stack) pop3Run(cmds string, dbg ...bool) ([]byte, error) {
 	id := int(atomic.AddInt64(&st.sid, 1))
-	return pipeSession(func(c net.Conn) { st.pop3.VerifC02Session(id, c) }, []byte(cmds), 30*time.Second)
+	srv := st.pop3
+	if len(dbg) > 0 && dbg[0] {
+		srv = st.pop3D
+	}
+	return pipeSession(func(c net.Conn) { srv.VerifC02Session(id, c) }, []byte(cmds), 30*time.Second)
 }
 
 func (st *c02Stack) httpGet(path string) (int, []byte, error) {
@@ -369,7 +392,7 @@ func (st *c02Stack) runCase(c *core.Ctx, m *core.Model, cs *c02Case, topN int) {
 		c.Diverge("http-source-identity", cas, fmt.Sprintf("rest %d web %d bytes", len(rsrc), len(wsrc)), fmt.Sprintf("%d bytes (the source)", len(src)))
 	}
 	// POP3: STAT, LIST, RETR
-	raw, err := st.pop3Run("USER " + cs.mb + "\r\nPASS x\r\nSTAT\r\nLIST\r\nLIST 1\r\nRETR 1\r\nQUIT\r\n")
+	raw, err := st.pop3Run("USER "+cs.mb+"\r\nPASS x\r\nSTAT\r\nLIST\r\nLIST 1\r\nRETR 1\r\nQUIT\r\n", cs.dbg)
 	if err != nil {
 		fail("pop3-session", err.Error())
 		return
@@ -407,7 +430,7 @@ func (st *c02Stack) runCase(c *core.Ctx, m *core.Model, cs *c02Case, topN int) {
 		c.Diverge("pop3-retr", cas, clip(fmt.Sprintf("%q", mretr), 600), clip(fmt.Sprintf("%q", core.UnHex(got)), 600))
 	}
 	// TOP
-	raw, err = st.pop3Run(fmt.Sprintf("USER %s\r\nPASS x\r\nTOP 1 %d\r\nQUIT\r\n", cs.mb, topN))
+	raw, err = st.pop3Run(fmt.Sprintf("USER %s\r\nPASS x\r\nTOP 1 %d\r\nQUIT\r\n", cs.mb, topN), cs.dbg)
 	if err != nil {
 		fail("pop3-session", err.Error())
 		return
@@ -571,6 +594,10 @@ func runC02EndToEnd(c *core.Ctx) {
 				cs.body = c02GenBody(r, 65536)
 				cs.wire = refDataEncode(cs.body)
 			}
+			cs.dbg = r.Intn(5) == 0
+			if cs.dbg {
+				c.H("e2e:netdebug-servers")
+			}
 			st.runCase(c, m, cs, r.Intn(4))
 			c.Count("e|"+cs.kind+"|"+string(cs.body)+"|"+string(cs.wire), cs.kind != "rfc" || c02NonTrivial(cs.body))
 			c.H("e2e:" + cs.kind)
@@ -579,6 +606,7 @@ func runC02EndToEnd(c *core.Ctx) {
 			}
 		}
 	})
+	st.concurrentReaders(c)
 	// long lines: around 64 KiB always; up to MiB lines in the thorough tier
 	nl := c.Scale(8, 40)
 	core.Parallel(4, 4, func(sh int) {
@@ -599,4 +627,133 @@ func runC02EndToEnd(c *core.Ctx) {
 			}
 		}
 	})
+}
+
+
+// concurrentReaders: the read interfaces serve the message that was asked for, byte for byte, also when many clients read different
+// messages at the same time and some of them read slowly (implementation only; the model of the HTTP source endpoints is the identity).
+func (st *c02Stack) concurrentReaders(c *core.Ctx) {
+	r := c.SubRng("c02-readers")
+	const k = 8
+	type held struct {
+		mb, id string
+		src    []byte
+	}
+	var hs []held
+	for i := 0; i < k; i++ {
+		mb := fmt.Sprintf("%sc02rd%d", []string{"m", "f"}[i%2], i)
+		var body bytes.Buffer
+		fmt.Fprintf(&body, "Subject: reader %d\r\n\r\n", i)
+		for l, n := 0, 20+r.Intn(1500); l < n; l++ {
+			fmt.Fprintf(&body, "message %d line %d %s\r\n", i, l, strings.Repeat(string(rune('a'+i)), r.Intn(60)))
+		}
+		cs := &c02Case{kind: "rfc", mb: mb, body: body.Bytes(), tail: "QUIT\r\n"}
+		cs.wire = refDataEncode(cs.body)
+		if _, err := st.smtpSend(cs); err != nil {
+			c.Fail("smtp-session", []string{"concurrent readers: delivery to " + mb}, err.Error(), "")
+			return
+		}
+		msgs, err := st.store.GetMessages(mb)
+		if err != nil || len(msgs) != 1 {
+			c.Fail("stored-once", []string{"concurrent readers: delivery to " + mb}, fmt.Sprintf("%d messages, err %v", len(msgs), err), "")
+			return
+		}
+		rc, err := msgs[0].Source()
+		if err != nil {
+			c.Fail("store-source", []string{"concurrent readers: " + mb}, err.Error(), "")
+			return
+		}
+		src, _ := io.ReadAll(rc)
+		rc.Close()
+		hs = append(hs, held{mb, msgs[0].ID(), src})
+	}
+	rounds := c.Scale(120, 1500)
+	var wg sync.WaitGroup
+	for g := 0; g < k; g++ {
+		wg.Add(1)
+		go func(g int) {
+			defer wg.Done()
+			rr := rand.New(rand.NewSource(int64(g) + 77))
+			for i := 0; i < rounds; i++ {
+				h := hs[(g+rr.Intn(2)*rr.Intn(k))%k]
+				path := "/api/v1/mailbox/" + h.mb + "/" + h.id + "/source"
+				if rr.Intn(2) == 0 {
+					path = "/serve/mailbox/" + h.mb + "/" + h.id + "/source"
+				}
+				resp, err := http.Get(st.http.URL + path)
+				if err != nil {
+					c.Fail("rest-source", []string{"concurrent readers", "GET " + path}, err.Error(), "")
+					return
+				}
+				var got []byte
+				if g == 0 || rr.Intn(6) == 0 { // a slow client: small reads with pauses
+					buf := make([]byte, 512+rr.Intn(2048))
+					for {
+						n, err := resp.Body.Read(buf)
+						got = append(got, buf[:n]...)
+						if err != nil {
+							break
+						}
+						if rr.Intn(4) == 0 {
+							time.Sleep(time.Duration(rr.Intn(300)) * time.Microsecond)
+						}
+					}
+				} else {
+					got, _ = io.ReadAll(resp.Body)
+				}
+				resp.Body.Close()
+				c.Compared(1)
+				c.H("e2e:concurrent-source-reads")
+				if resp.StatusCode != 200 || !bytes.Equal(got, h.src) {
+					c.Fail("interfaces-agree", []string{"concurrent readers (8 clients, different messages, some reading slowly)", "GET " + path},
+						fmt.Sprintf("status %d, %d bytes served, the store holds %d bytes; served text starts %s, stored text starts %s", resp.StatusCode, len(got), len(h.src),
+							clip(fmt.Sprintf("%q", got), 120), clip(fmt.Sprintf("%q", h.src), 120)), "")
+					return
+				}
+			}
+		}(g)
+	}
+	wg.Wait()
+	// the same, with the overlap placed deterministically: while the response for message A is being written (the client is slow to take the
+	// first byte), a complete request for message B is served; both must get their own message.
+	for i := 0; i < k; i++ {
+		for _, suffix := range []string{"/api/v1/mailbox/%s/%s/source", "/serve/mailbox/%s/%s/source"} {
+			a, b := hs[i], hs[(i+1+r.Intn(k-1))%k]
+			pa, pb := fmt.Sprintf(suffix, a.mb, a.id), fmt.Sprintf(suffix, b.mb, b.id)
+			inner := httptest.NewRecorder()
+			outer := &c02SlowWriter{hdr: http.Header{}, meanwhile: func() {
+				web.Router.ServeHTTP(inner, httptest.NewRequest("GET", pb, nil))
+			}}
+			web.Router.ServeHTTP(outer, httptest.NewRequest("GET", pa, nil))
+			c.Compared(2)
+			c.H("e2e:nested-source-reads")
+			if !bytes.Equal(outer.body.Bytes(), a.src) || !bytes.Equal(inner.Body.Bytes(), b.src) {
+				c.Fail("interfaces-agree", []string{"GET " + pa + " whose client is slow to take the first byte; meanwhile GET " + pb + " is served completely"},
+					fmt.Sprintf("first request: %d bytes served (stored %d), starts %s; second request: %d bytes served (stored %d)", outer.body.Len(), len(a.src),
+						clip(fmt.Sprintf("%q", outer.body.Bytes()), 120), inner.Body.Len(), len(b.src)), "")
+			}
+		}
+	}
+	for _, h := range hs {
+		_ = st.store.PurgeMessages(h.mb)
+	}
+	c.Count("concurrent-readers", true)
+}
+
+// c02SlowWriter: an HTTP client connection that is not ready for the body right away: before the first body byte is taken, `meanwhile` runs.
+type c02SlowWriter struct {
+	hdr       http.Header
+	status    int
+	body      bytes.Buffer
+	meanwhile func()
+}
+
+func (w *c02SlowWriter) Header() http.Header  { return w.hdr }
+func (w *c02SlowWriter) WriteHeader(code int) { w.status = code }
+func (w *c02SlowWriter) Write(p []byte) (int, error) {
+	if f := w.meanwhile; f != nil {
+		w.meanwhile = nil
+		f()
+	}
+	return w.body.Write(p)
 }
